@@ -39,7 +39,11 @@ pub trait Keychain: Sized {
     fn secp(&self) -> &Secp256k1;
     spec fn root_hash(&self) -> Seq<u8>;
 }
-pub trait NodeClient: Sized { }
+pub trait NodeClient: Sized {
+    // chain tip (height, hash) as reported by the node — any value, may fail
+    fn get_chain_tip(&self) -> (r: Result<(u64, String), Error>)
+        ensures r matches Err(e) ==> store_err(e);
+}
 pub trait ProofBuild { }
 
 // grin_core::core::amount_to_hr_string — display only
@@ -99,7 +103,8 @@ impl Clone for DalekSignature {
 }
 impl Copy for DalekSignature {}
 pub struct Transaction { pub t: u64 }
-pub struct InitTxArgsOpaque { pub a: u64 }
+pub struct SlatepackAddress { pub pub_key: DalekPublicKey }
+impl Clone for SlatepackAddress { #[verifier::external_body] fn clone(&self) -> (r: Self) ensures r == *self { unimplemented!() } }
 
 // A-clone (L8): clone of a Vec of plain data is an equal Vec
 #[verifier::external_body]
@@ -270,3 +275,8 @@ pub fn reward_output<K: Keychain, B: ProofBuild>(keychain: &K, builder: &B, key_
 // big-endian 8-byte encoding of a u64 (byteorder / grin_core::ser)
 pub uninterp spec fn spec_be64(v: u64) -> Seq<u8>;
 pub struct Ed25519Error { pub c: u8 }
+pub uninterp spec fn spec_uuid_bytes(u: Uuid) -> Seq<u8>;
+impl Uuid {
+    #[verifier::external_body]
+    pub fn as_bytes(&self) -> (r: &[u8; 16]) ensures r@ == spec_uuid_bytes(*self) { unimplemented!() }
+}
